@@ -31,7 +31,10 @@ class Esp:
         self.spec = spec
         self.facts = body.facts
         self.flags = self._flag_locals() | set(extra_flags)
-        self.states = {}   # point -> {typestate: env(dict)}
+        self.states = {}   # point -> {(typestate, key flag values): env(dict)}
+        # named bool / Option flags the code itself branches on are part of the state key (kept apart at joins)
+        self.key_flags = sorted(l for l in self.flags if body.local_name(l) and (
+            body.ty(l)["s"] == "bool" or body.ty(l)["head"].endswith("option::Option")))[:8]
 
     # -- which locals are tracked ---------------------------------------------------------
     def _flag_locals(self):
@@ -128,6 +131,26 @@ class Esp:
                 return norm(cur[1]) not in [norm(x) for x in listed], env
             return norm(cur[1]) == norm(target_value), env
         env2 = env
+        if cur and cur[0] in ("is_none_of", "is_some_of"):
+            src = cur[1]
+            sv = env.get(src)
+            truth = None
+            if target_value is not None:
+                truth = 1 if target_value != 0 else 0
+            elif [int(v) for v, _ in t["targets"]] == [0]:
+                truth = 1
+            if sv and sv[0] == "variant" and truth is not None:
+                isnone = 1 if sv[2] == "None" else 0
+                val = isnone if cur[0] == "is_none_of" else 1 - isnone
+                return val == truth, env
+            if truth is not None:
+                env2 = dict(env)
+                env2[l] = ("int", truth)
+                isnone = truth if cur[0] == "is_none_of" else 1 - truth
+                adt = self.body.ty(src).get("base") or "std::option::Option"
+                env2[src] = ("variant", adt, "None" if isnone else "Some")
+                return True, env2
+            return True, env
         if target_value is not None:
             env2 = dict(env)
             env2[l] = ("int", target_value)
@@ -178,7 +201,7 @@ class Esp:
             if steps > 400000:
                 raise RuntimeError("ESP did not converge in %s" % body.id)
             cur = self.states.get(pt, {})
-            for ts, env in list(cur.items()):
+            for (ts, _kf), env in list(cur.items()):
                 b, i = pt
                 if i < body.nstmts(b):
                     st = body.blocks[b]["stmts"][i]
@@ -205,6 +228,20 @@ class Esp:
                     if dl is not None and dl in env:
                         env2 = dict(env)
                         env2.pop(dl, None)
+                    if dl is not None and dl in self.flags and c.callee:
+                        nm = c.callee.get("def", "")
+                        pol = 1 if nm.endswith("Option::<T>::is_none") else (0 if nm.endswith("Option::<T>::is_some") else None)
+                        if pol is not None and c.args:
+                            from .analysis import ref_target
+                            src = ref_target(body, c.args[0])
+                            if src is not None:
+                                env2 = dict(env2)
+                                sv = env2.get(src)
+                                if sv and sv[0] == "variant":
+                                    isnone = 1 if sv[2] == "None" else 0
+                                    env2[dl] = ("int", isnone if pol == 1 else 1 - isnone)
+                                else:
+                                    env2[dl] = ("is_none_of" if pol == 1 else "is_some_of", src)
                     for ts2 in spec.on_call(pt, c, ts, env):
                         if t["target"] is not None:
                             self._merge(Point(t["target"], 0), ts2, env2, dq)
@@ -229,15 +266,16 @@ class Esp:
 
     def _merge(self, pt, ts, env, dq):
         cur = self.states.setdefault(pt, {})
-        old = cur.get(ts)
+        key = (ts, tuple(env.get(f) for f in self.key_flags))
+        old = cur.get(key)
         if old is None:
-            cur[ts] = env
+            cur[key] = env
             dq.append(pt)
             return
         # join: keep agreeing bindings
         joined = {k: v for k, v in old.items() if env.get(k) == v}
         if joined != old:
-            cur[ts] = joined
+            cur[key] = joined
             dq.append(pt)
 
 
